@@ -26,6 +26,9 @@ pub struct Case15 {
     pub ids: [u16; 4],
     pub records: Vec<Rec>,
     pub reader: ReaderCfg,
+    /// zero octets that follow the message in the same reader
+    #[serde(default)]
+    pub trail: u32,
 }
 
 /// Is this error attributable to a record with expectation `want`?
@@ -92,6 +95,10 @@ fn exec_c15(case: &Case15, obs: &mut Obs) -> Result<(), Failure> {
     }
     let l = b.len() as u16;
     b[2..4].copy_from_slice(&l.to_be_bytes());
+    if case.trail > 0 {
+        b.resize(b.len() + case.trail as usize, 0);
+        obs.count("probe:message-followed-by-64k-or-more");
+    }
     obs.steps += 1;
     let model = spec_decode(&b, Opts::STRICT);
     let out = match decode_msg(&b, Some(Opts::STRICT), &case.reader, false) {
@@ -259,10 +266,18 @@ impl Scenario for C15 {
                 ctx.obs.count("probe:three-or-more-errors");
             }
             ctx.obs.count(&format!("placement:{tag}"));
+            // now and then the message is followed by 64 KiB or more in the
+            // same reader (sizes that differ from small ones modulo 2^16)
+            let (reader, trail) = if sm.chance(1, 40) && total + 12 <= 65535 {
+                (ReaderCfg::Real, crate::faults::trail_for(sm, total + 12, total + 12) as u32)
+            } else {
+                (reader, 0)
+            };
             let case = Case15 {
                 ids,
                 records,
                 reader,
+                trail,
             };
             ctx.obs.distinct(fnv1a(&serde_json::to_vec(&case.records).unwrap()));
             if ctx.run == 5 {
@@ -376,6 +391,12 @@ impl Scenario for C15 {
     }
     fn shrink(case: &Case15) -> Vec<Case15> {
         let mut out = Vec::new();
+        if case.trail > 0 {
+            out.push(Case15 {
+                trail: 0,
+                ..case.clone()
+            });
+        }
         for i in (0..case.records.len()).rev() {
             let mut r = case.records.clone();
             r.remove(i);
@@ -439,6 +460,9 @@ pub enum Case20 {
         expect: SpecErr,
         /// name of the injected fault (for the report)
         fault: String,
+        /// zero octets that follow the message in the same reader
+        #[serde(default)]
+        trail: u32,
     },
     /// render one error value
     Render { variant: u8, payload: u16 },
@@ -531,8 +555,19 @@ fn exec_c20(case: &Case20, obs: &mut Obs) -> Result<(), Failure> {
             bytes,
             expect,
             fault,
+            trail,
         } => {
             obs.steps += 1;
+            let long;
+            let bytes = if *trail > 0 {
+                obs.count("probe:message-followed-by-64k-or-more");
+                let mut v = bytes.clone();
+                v.resize(v.len() + *trail as usize, 0);
+                long = v;
+                &long
+            } else {
+                bytes
+            };
             let out = match decode_msg(bytes, Some(Opts::STRICT), &ReaderCfg::Real, false) {
                 Ok(o) => o,
                 Err(_) => return Ok(()), // C01
@@ -613,6 +648,7 @@ impl Scenario for C20 {
                 bytes: b,
                 expect: SpecErr::InvalidVersion(x),
                 fault: format!("version nibble := {x}"),
+                trail: 0,
             });
         }
         // record-level single faults at a non-first position
@@ -639,6 +675,7 @@ impl Scenario for C20 {
                 bytes: b,
                 expect: bad.expect.unwrap(),
                 fault: format!("{kind:?} record at position {pos}"),
+                trail: 0,
             });
         }
         // every (Short x kind) and (BadUtf8 x string kind) pair recurs:
@@ -655,6 +692,7 @@ impl Scenario for C20 {
                 bytes: control_of(&mut wl, &rs),
                 expect: SpecErr::IncompleteAvp(attr),
                 fault: format!("type {attr} payload cut to {n} octets"),
+                trail: 0,
             });
         }
         // data message: offset size := n > remaining
@@ -683,6 +721,7 @@ impl Scenario for C20 {
                 bytes: b,
                 expect: SpecErr::InvalidOffset(n),
                 fault: format!("offset size := {n} with {dl} octets remaining"),
+                trail: 0,
             });
         }
         // rendering: boundary payloads for every variant
@@ -697,7 +736,16 @@ impl Scenario for C20 {
             };
             cases.push(Case20::Render { variant, payload });
         }
-        for (k, c) in cases.into_iter().enumerate() {
+        for (k, mut c) in cases.into_iter().enumerate() {
+            if let Case20::Single { bytes, trail, .. } = &mut c {
+                if wl.chance(1, 40) && bytes.len() >= 4 {
+                    let declared = u16::from_be_bytes([bytes[2], bytes[3]]) as usize;
+                    // only behind a message that ends where it says
+                    if declared == bytes.len() {
+                        *trail = crate::faults::trail_for(&mut wl, bytes.len(), declared) as u32;
+                    }
+                }
+            }
             ctx.obs.distinct(fnv1a(&serde_json::to_vec(&c).unwrap()));
             if ctx.run == 0 && k < 3 {
                 let c2 = c.clone();
@@ -716,12 +764,18 @@ impl Scenario for C20 {
                 bytes,
                 expect,
                 fault,
-            } => super::c05_c10::shrink_records(bytes, 12)
-                .into_iter()
-                .map(|b| Case20::Single {
+                trail,
+            } => std::iter::once(bytes.clone())
+                .filter(|_| *trail > 0)
+                .map(|b| (b, 0u32))
+                .chain(super::c05_c10::shrink_records(bytes, 12).into_iter().map(|b| (b, *trail)))
+                // stay in the domain: still exactly this one fault by the specification
+                .filter(|(b, _)| matches!(&spec_decode(b, Opts::STRICT).result, Err(e) if e.len() == 1 && e[0] == *expect))
+                .map(|(b, t)| Case20::Single {
                     bytes: b,
                     expect: *expect,
                     fault: fault.clone(),
+                    trail: t,
                 })
                 .collect(),
         }
